@@ -13,6 +13,7 @@
 # limitations under the License.
 
 import numpy as np
+from scipy.linalg import schur
 from cmath import isclose, phase
 
 def apply_ctrl_state(self):
@@ -20,6 +21,17 @@ def apply_ctrl_state(self):
         for i, ctrl in enumerate(self.ctrl_state[::-1]):
             if ctrl == '0':
                 self.definition.x(self.control_qubits[i])
+
+def orthonormal_eig(unitary):
+    """
+    Eigenvalues and an orthonormal eigenbasis of a unitary (hence normal) matrix.
+    The complex Schur form of a normal matrix is diagonal and its Schur vectors are
+    orthonormal even when the eigenvalues are (nearly) repeated, which
+    `np.linalg.eig` does not guarantee.
+    """
+    schur_form, schur_vectors = schur(np.asarray(unitary, dtype=complex), output="complex")
+    return np.diag(schur_form), schur_vectors
+
 
 def u2_to_su2(u_2):
     phase_factor = np.conj(np.linalg.det(u_2) ** (-1 / u_2.shape[0]))
